@@ -1013,7 +1013,8 @@ def r02_2_attrset(ctx, rid='R02.2'):
     good = bool(calls)
     for x in calls:
         got, why3 = (None, 'wrong arity')
-        if len(x.args) == 2:
+        # (further arguments - the loader handed in instead of being parked on self - do not concern the name list)
+        if len(x.args) >= 2 and all(norm(a_) == c.fi.params[1] for a_ in x.args[2:]):
             got, why3 = _list_provenance(c, x.args[1], 'inspect.getfullargspec(self.class_.__init__).args', set())
         if got is None:
             good = False
@@ -2430,8 +2431,14 @@ def r04_7_strip_before_construct(ctx, rid='R04.7'):
     gnode = g.fi.params[1]
     for c in [c for c in g.calls('strip_tags') if g.live(c)]:
         it = _iter_var_over(c, '%s.value' % gnode)
+        # the resolver: the loader of this call - parked on self by __call__, or handed in as a parameter by every caller
+        res_ok = len(c.args) == 2 and norm(c.args[0]) == 'self.__loader'
+        if len(c.args) == 2 and isinstance(c.args[0], ast.Name) and c.args[0].id in g.fi.params[1:]:
+            srcs_ = _param_sources(P, g, c.args[0].id)
+            res_ok = bool(srcs_) and all(isinstance(e_, ast.Name) and e_.id == cf_.fi.params[1] and cf_.fi.qual == 'Constructor.__call__'
+                                         for cf_, e_ in srcs_)
         ok = it is not None and isinstance(it[1], ast.Tuple) and len(c.args) == 2 and norm(c.args[1]) == norm(it[1].elts[1]) \
-            and norm(c.args[0]) == 'self.__loader'
+            and res_ok
         r.check(ok, 'strip_tags(self.__loader, value) for the value of every pair of %s.value' % gnode,
                 g.key('strip-loop'), g.loc(c), 'not every extra attribute value is stripped (loop over %s.value with early '
                 'exit, or wrong operand)' % gnode)
@@ -2490,8 +2497,9 @@ def r04_7_strip_before_construct(ctx, rid='R04.7'):
                 'their tags')
     # self.__loader is the loader of this call
     st = [n for n in f.walk() if isinstance(n, ast.Assign) and any(norm(t) == 'self.__loader' for t in n.targets)]
-    r.check(bool(st) and all(norm(n.value) == f.fi.params[1] for n in st)
-            and all(any(f.cfg.dominates(f.nid(n), f.nid(s)) for n in st) for s in strips),
+    handed = not st and all(any(norm(a_) == f.fi.params[1] for a_ in s.args[1:]) for s in strips) and bool(strips)
+    r.check(handed or (bool(st) and all(norm(n.value) == f.fi.params[1] for n in st)
+                       and all(any(f.cfg.dominates(f.nid(n), f.nid(s)) for n in st) for s in strips)),
             'self.__loader is set to this call\'s loader before stripping', f.key('loader-field'), f.loc(),
             'the resolver used for stripping is not the loader of this call')
     r.done()
